@@ -239,6 +239,12 @@ func (f *Flow) Deposit() {
 			caller = append(caller, 7)
 			g.stats.Mut("dep-caller-long")
 		}
+	case 10:
+		mr = g.sparse32()
+		g.stats.Mut("dep-recipient-one-byte")
+	case 11:
+		caller = g.sparse32()
+		g.stats.Mut("dep-caller-one-byte")
 	}
 	plan := f.plan()
 	if withCaller {
@@ -301,6 +307,12 @@ func (f *Flow) Send() {
 	case 6:
 		rcp = make([]byte, 20)
 		g.stats.Mut("send-recipient-20-zero")
+	case 7:
+		rcp = g.sparse32()
+		g.stats.Mut("send-recipient-one-byte")
+	case 8:
+		caller = g.sparse32()
+		g.stats.Mut("send-caller-one-byte")
 	}
 	body := g.patBytes(bodyLen)
 	if withCaller {
@@ -746,6 +758,9 @@ func (f *Flow) Replace() {
 	case 2:
 		newCaller = append(newCaller, 1)
 		mut += "+rep-caller-long"
+	case 3:
+		newCaller = g.sparse32()
+		mut += "+rep-caller-one-byte"
 	}
 	if mut == "" {
 		mut = "rep-valid"
@@ -753,6 +768,9 @@ func (f *Flow) Replace() {
 	if deposit {
 		newRcp := g.r.Bytes(32)
 		switch g.r.Intn(8) {
+		case 3:
+			newRcp = g.sparse32()
+			mut += "+rep-recipient-one-byte"
 		case 0:
 			newRcp = make([]byte, 32)
 			mut += "+rep-recipient-zero"
